@@ -71,6 +71,7 @@ struct Target {
     leteff: Vec<(String, Vec<String>, String)>,   // let-initialiser text -> (variables, term : res (value * new values))
     psmap: Vec<(String, Vec<String>, String)>,    // statement text -> (variables, term : res (new values))
     loopfuel: Option<String>,                     // fuel of a `loop { .. break .. }` (term over the state at loop entry)
+    restype: Option<String>,                      // the outcome type of the function (default `res`)
     recfuel: Option<String>,                      // recursive function: Fixpoint on a fuel parameter; panic site when it runs out
 }
 
@@ -199,6 +200,8 @@ impl<'a> Tr<'a> {
                 let ty = toks(&c.ty);
                 match ty.as_str() {
                     "u32" => Ok((format!("(as_u32 {})", a), Kind::Num)),
+                    "u16" => Ok((format!("({} mod 65536)", a), Kind::Num)),
+                    "u8" => Ok((format!("({} mod 256)", a), Kind::Num)),
                     "u64" | "usize" => Ok((a, Kind::Num)),
                     _ => Err(format!("cast to {}", ty)),
                 }
@@ -619,6 +622,10 @@ impl<'a> Tr<'a> {
             Expr::Call(c) => {
                 let n = toks(&c.func);
                 let ctor = self.t.ctor.get(&n).cloned().ok_or(format!("unknown error constructor {}", n))?;
+                if let Some(bare) = ctor.strip_prefix('!') {
+                    // the payload is a formatted message: not modelled
+                    return Ok(bare.to_string());
+                }
                 let mut args = Vec::new();
                 for a in &c.args {
                     args.push(self.expr(a, binds)?.0);
@@ -953,6 +960,10 @@ impl<'a> Tr<'a> {
     }
 
     fn rmut_call<'e>(&self, e: &'e Expr) -> Option<&'e syn::ExprMethodCall> {
+        let e = match e {
+            Expr::Cast(c) if matches!(toks(&c.ty).as_str(), "usize" | "u64") => &*c.expr,
+            other => other,
+        };
         let inner = match e {
             Expr::Try(t) => &*t.expr,
             other => other,
@@ -1937,6 +1948,7 @@ fn parse_targets(text: &str) -> (String, Vec<Target>) {
                 }
             }
             "loopfuel" => t.loopfuel = Some(rest.to_string()),
+            "restype" => t.restype = Some(rest.to_string()),
             "retstate" => t.retstate = rest.split_whitespace().map(|s| s.to_string()).collect(),
             "retvars" => t.retvars = rest.split_whitespace().map(|s| s.to_string()).collect(),
             "recfuel" => t.recfuel = Some(rest.to_string()),
@@ -2164,7 +2176,7 @@ fn translate_target(repo: &str, t0: &Target) -> Result<String, String> {
     if t.recfuel.is_some() {
         header.push_str(" {struct fuel}");
     }
-    let _ = write!(header, " : res ({}) :=\n", t.ret);
+    let _ = write!(header, " : {} ({}) :=\n", t.restype.clone().unwrap_or("res".to_string()), t.ret);
     let body = tr
         .seq(&block.stmts, &K::End)
         .map_err(|e| format!("{} :: {}: outside the translated subset: {}", t.file, t.func, e))?;
